@@ -173,14 +173,17 @@ pub struct FuncSpec {
     /// instruction indices are then no longer ascending
     #[serde(default)]
     pub moved: Vec<(usize, usize, usize)>,
+    /// (block, instruction) appended to a block after the removals and moves above, as a
+    /// pass that rewrites a block does: the new instruction must get an index of its own
+    #[serde(default)]
+    pub appended: Vec<(usize, InstrSpec)>,
 }
 
 impl FuncSpec {
     pub fn build(&self) -> Result<il::Function, String> {
         let mut cfg = il::ControlFlowGraph::new();
-        for instrs in &self.blocks {
-            let block = cfg.new_block().map_err(|e| e.to_string())?;
-            for ins in instrs {
+        fn push(block: &mut il::Block, ins: &InstrSpec) -> Result<(), String> {
+            {
                 match &ins.op {
                     OpSpec::Assign(n, b, e) => block.assign(il::scalar(n.clone(), *b), e.build()?),
                     OpSpec::Load(n, b, e) => block.load(il::scalar(n.clone(), *b), e.build()?),
@@ -217,6 +220,13 @@ impl FuncSpec {
                 let last = block.instructions_mut().last_mut().unwrap();
                 last.set_address(ins.address);
             }
+            Ok(())
+        }
+        for instrs in &self.blocks {
+            let block = cfg.new_block().map_err(|e| e.to_string())?;
+            for ins in instrs {
+                push(block, ins)?;
+            }
         }
         for e in &self.edges {
             if e.head >= self.blocks.len() || e.tail >= self.blocks.len() {
@@ -244,6 +254,11 @@ impl FuncSpec {
                     let ins = v.remove(from);
                     v.insert(to, ins);
                 }
+            }
+        }
+        for (b, ins) in &self.appended {
+            if let Ok(block) = cfg.block_mut(*b) {
+                push(block, ins)?;
             }
         }
         if self.entry < self.blocks.len() {
